@@ -2,9 +2,9 @@ package c14
 
 import (
 	"fmt"
-	"reflect"
 	"strconv"
 	"strings"
+	"time"
 
 	"verifharness/internal/elv"
 	"verifharness/internal/mon"
@@ -44,10 +44,10 @@ func (h *hist) varList() string {
 
 // checkVars compares values read for the variables with the model.
 // assigned: indices of the variables the step was supposed to rebind.
-func (h *hist) checkVars(vals []any, models []*node, assigned map[int]bool, when string) bool {
+func (h *hist) checkVars(cz *canonizer, vals []any, models []*node, assigned map[int]bool, when string) bool {
 	for i := range h.names {
 		want := canonM(models[i])
-		got := canonR(vals[i])
+		got := cz.canon(vals[i])
 		if got == want {
 			continue
 		}
@@ -82,24 +82,12 @@ func (h *hist) checkAll(assigned map[int]bool) bool {
 		h.fail("read-back-error", fmt.Sprintf("reading variables and aliases: %v, %d values for %d expressions", res.Err, len(res.Values), len(h.names)+len(readers)), nil)
 		return false
 	}
-	if !h.checkVars(res.Values[:len(h.names)], h.model, assigned, "after the step") {
+	cz := newCanonizer()
+	canon := cz.canon
+	if !h.checkVars(cz, res.Values[:len(h.names)], h.model, assigned, "after the step") {
 		return false
 	}
 	copy(h.real, res.Values[:len(h.names)])
-	memo := map[uintptr]string{}
-	canon := func(v any) string {
-		rv := reflect.ValueOf(v)
-		if rv.IsValid() && rv.Kind() == reflect.Ptr {
-			p := rv.Pointer()
-			if s, ok := memo[p]; ok {
-				return s
-			}
-			s := canonR(v)
-			memo[p] = s
-			return s
-		}
-		return canonR(v)
-	}
 	for i, a := range readers {
 		v := res.Values[len(h.names)+i]
 		if !same(v, a.handle) {
@@ -125,7 +113,7 @@ func (h *hist) checkAll(assigned map[int]bool) bool {
 // insideOutputs checks `put $x0 $x1 …` outputs produced inside a temporary
 // assignment and keeps them as aliases ("values already output").
 func (h *hist) insideOutputs(vals []any, models []*node, assigned map[int]bool, when string) bool {
-	if !h.checkVars(vals, models, assigned, when) {
+	if !h.checkVars(newCanonizer(), vals, models, assigned, when) {
 		return false
 	}
 	for i := range vals {
@@ -504,7 +492,21 @@ func Spec() *mon.Spec {
 			"steps that must fail are only required to raise an exception and to leave every variable and alias unchanged (the kind of exception is not checked)",
 			"keys with colliding hashes are found by calling vals.Hash as a black box on 65k short strings",
 		},
-		Phases: []mon.Phase{{Name: "history", Quick: 1500, Thorough: 40000, Run: runHistory}},
-		Floors: map[string]int{},
+		Phases: []mon.Phase{{Name: "history", Quick: 1500, Thorough: 32000, Run: runHistory, Timeout: 10 * time.Minute}},
+		Floors: map[string]int{
+			"distinct_nontrivial": 450, "steps": 10000, "alias_rechecks": 300000,
+			"alias_variable": 2500, "alias_closure": 2500, "alias_output": 2500, "alias_embedded-in-list": 2500, "alias_embedded-in-map": 2500,
+			"alias_sibling-assoc": 2500, "alias_sibling-conj": 2500, "alias_sibling-dissoc": 1300, "alias_inner-container": 450, "alias_slice": 1100,
+			"alias_output-inside-temporary-assignment": 3000,
+			"set_depth1": 4000, "set_depth2": 1200, "set_depth3plus": 800, "set_from_function": 2000, "set_two_variables": 900,
+			"del_depth1": 700, "del_depth2": 400, "del_depth3plus": 300, "del_absent_key": 250, "del_two_operands": 200,
+			"tmp_depth1": 1000, "tmp_depth2": 350, "tmp_depth3plus": 200, "tmp_nested": 350, "tmp_then_set": 350,
+			"with_depth1": 700, "with_depth2": 200, "with_depth3plus": 150, "with_two_variables": 350,
+			"rejected_del-list-element": 200, "rejected_list-index-out-of-range": 600, "rejected_missing-intermediate-key": 900,
+			"list_path_copy_in_tail": 5000, "list_path_copy_in_tree_height0": 1200, "list_path_copy_in_tree_height1": 800, "list_path_copy_in_tree_height2": 150,
+			"grow_list_element_across_shape_change": 12,
+			"map_insert_new_key":                    550, "map_grow_16_to_17_keys": 40, "map_shrink_at_8_or_17_keys": 180,
+			"map_op_on_key_with_full_hash_collision": 1500, "map_path_copy_33plus_keys": 1700,
+		},
 	}
 }
